@@ -170,7 +170,10 @@ pub fn run(ctx: &Ctx) -> Outcome {
                 let a = pattern(seed, 0xC08A, lmax);
                 let lens = byte_lengths(bs, lmax);
                 for &l in &lens {
-                    for &lp in lens.iter().filter(|&&lp| lp < l) {
+                    let below: Vec<usize> = lens.iter().copied().filter(|&lp| lp < l).collect();
+                    // large blocks: the three shortest and the two longest proper prefixes of each length
+                    let below: Vec<usize> = if bs > 32 && below.len() > 5 { below[..3].iter().chain(&below[below.len() - 2..]).copied().collect() } else { below };
+                    for &lp in &below {
                         // second message: same prefix, different continuation
                         let mut b = a[..l].to_vec();
                         for x in b[lp..].iter_mut() {
